@@ -351,8 +351,12 @@ impl Core {
                 let context = self.context.clone();
                 let socket_id = socket.id();
                 async move {
+                    #[cfg(trusttunnel_verif)]
+                    let verif_conn_id = socket_id.to_string();
                     log_id!(debug, socket_id, "New QUIC connection");
                     Self::on_new_quic_connection(context, socket, socket_id).await;
+                    #[cfg(trusttunnel_verif)]
+                    crate::verif_emit!("QuicConnDone", "\"id\":\"{}\"", verif_conn_id);
                 }
             });
         }
